@@ -564,6 +564,13 @@ pub fn corpus() -> Vec<Item> {
     out
 }
 
+/// a Rows result with two columns of the given types and two rows
+pub fn two_column_item(ta: &Ty, tb: &Ty, a: usize, b_idx: usize) -> Item {
+    let cols = vec![col("x", ta.clone()), col("y", tb.clone())];
+    let rows = rows_of(&cols, 2);
+    Item { name: format!("rows/pair{a}x{b_idx}"), resp: Response::Result(ResultBody::Rows(Rows { meta: meta(cols), rows })), needs: 0, breaks_under: 0 }
+}
+
 /// extension subsets (tracing, warnings, custom payload) - all 8, with a second content variant for the non-empty ones
 pub fn ext_alphabet() -> Vec<Ext> {
     let mut v = Vec::new();
